@@ -371,6 +371,9 @@ func c02Nested(r *rand.Rand, f string, depth int) string {
 		case 2: // never closed
 			return strings.Repeat("(", depth) + "a"
 		default: // comments nested as text
+			if depth > 100000 {
+				depth = 100000 // the Newick comment reader is quadratic in the comment length (3 s at 10^5, 166 s at 10^6): slow, not a hang
+			}
 			return "(" + strings.Repeat("[", depth) + "a" + strings.Repeat("]", depth) + ",b);"
 		}
 	case "nexus":
